@@ -67,7 +67,8 @@ def do_inner(j):
         return ["rej", exc_info(e)]
 
 
-def build_expr(m, e):
+def build_expr(m, e, nodes=None):
+    """`nodes`: every Slice / Concat object that is built, in pre-order (a node before the nodes below it)."""
     t = e[0]
     if t == "sig":
         name = f"s{e[1]}"
@@ -85,10 +86,33 @@ def build_expr(m, e):
             m.add(bundle_def(e[2])(), name=name)
         return getattr(m.get(name), "m")
     if t == "sl":
-        return build_expr(m, e[1])[mk_index(e[2])]
+        slot = None
+        if nodes is not None:
+            slot = len(nodes)
+            nodes.append(None)
+        obj = build_expr(m, e[1], nodes)[mk_index(e[2])]
+        if slot is not None:
+            nodes[slot] = obj
+        return obj
     if t == "cat":
-        return h.Concat(*[build_expr(m, p) for p in e[1]])
+        slot = None
+        if nodes is not None:
+            slot = len(nodes)
+            nodes.append(None)
+        obj = h.Concat(*[build_expr(m, p, nodes) for p in e[1]])
+        if slot is not None:
+            nodes[slot] = obj
+        return obj
     raise ValueError(t)
+
+
+def public_width(obj):
+    """The PUBLIC width property (Signal.width, Slice.width, Concat.width), None when reading it raises."""
+    try:
+        w = obj.width
+        return w if isinstance(w, int) and not isinstance(w, bool) else None
+    except Exception:
+        return None
 
 
 _cnt = [0]
@@ -96,12 +120,16 @@ def do_nested(j):
     expr = j
     _cnt[0] += 1
     m = h.Module(name=f"Top{_cnt[0]}")
-    out = dict(width=None, flats=None, err=None)
+    out = dict(width=None, flats=None, err=None, pub=None)
+    nodes = []
     try:
-        conn = build_expr(m, expr)
+        conn = build_expr(m, expr, nodes)
     except Exception as e:
         out["err"] = ["build", exc_info(e)]
         return out
+    # the public width property of every Slice and Concat of the expression, read BEFORE anything is elaborated
+    # (references unresolved); reading it must not disturb the elaboration that follows
+    out["pub"] = [public_width(n) for n in nodes]
     try:
         w = hwidth(conn)
         out["width"] = w
@@ -126,8 +154,78 @@ def do_nested(j):
     return out
 
 
+# ------------------------------------------------------------------------------------------------
+# systems of port connections that mention one another's port references
+# ------------------------------------------------------------------------------------------------
+_wmods = {}
+def w_mod(w):
+    if w not in _wmods:
+        m = h.Module(name=f"W{w}")
+        m.a = h.Port(width=w)
+        _wmods[w] = m
+    return _wmods[w]
+
+
+def loop_expr(m, e):
+    t = e[0]
+    if t == "sig":
+        return m.get(f"s{e[1]}")
+    if t == "pref":
+        return getattr(m.get(f"i{e[1]}"), "a")
+    if t == "sl":
+        return loop_expr(m, e[1])[mk_index(e[2])]
+    if t == "cat":
+        return h.Concat(*[loop_expr(m, p) for p in e[1]])
+    raise ValueError(t)
+
+
+def do_loop(j):
+    """j = dict(sigs=[width], ports=[width], conns=[expr | None]): Signals s<k>, Instances i<k> of a Module with one
+    port `a`; the connection of i<k>.a may mention Signals and the ports `a` of every Instance.
+    Returns, per connected port, the public width before elaboration and the resolved target in the exported package,
+    least significant first, as flats whose names are mapped back: s<k> -> k, i<k>_a -> 100 + k."""
+    _cnt[0] += 1
+    m = h.Module(name=f"Sys{_cnt[0]}")
+    out = dict(ports=None, err=None)
+    try:
+        for k, w in enumerate(j["sigs"]):
+            m.add(h.Signal(name=f"s{k}", width=w))
+        for k, w in enumerate(j["ports"]):
+            m.add(w_mod(w)(), name=f"i{k}")
+        conns = {}
+        for k, e in enumerate(j["conns"]):
+            if e is not None:
+                conns[k] = loop_expr(m, e)
+        for k, c in conns.items():
+            m.get(f"i{k}").connect("a", c)
+        pre = {}
+        for k, c in conns.items():
+            pre[k] = public_width(c) if isinstance(c, (h.Signal, h.Slice, h.Concat)) else hwidth(c)
+        pkg = h.to_proto(m)
+        pm = pkg.modules[-1]
+        ports = []
+        for k in sorted(conns):
+            inst = [i for i in pm.instances if i.name == f"i{k}"][0]
+            tgt = [c.target for c in inst.connections if c.portname == "a"][0]
+            fl = []
+            for f in target_flats(pm, tgt):
+                ms, mi = re.fullmatch(r"s(\d+)", f[1]), re.fullmatch(r"i(\d+)_a", f[1])
+                if ms:
+                    sid = int(ms.group(1))
+                elif mi:
+                    sid = 100 + int(mi.group(1))
+                else:
+                    raise RuntimeError(f"unexpected signal name {f[1]}")
+                fl.append([f[0], sid] + f[2:])
+            ports.append([pre[k], fl])
+        out["ports"] = ports
+    except Exception as e:
+        out["err"] = exc_info(e)
+    return out
+
+
 def handler(p):
-    f = dict(spec=do_spec, inner=do_inner, nested=do_nested)[p["kind"]]
+    f = dict(spec=do_spec, inner=do_inner, nested=do_nested, loop=do_loop)[p["kind"]]
     return dict(results=[f(j) for j in p["jobs"]])
 
 
